@@ -230,3 +230,39 @@ def within(values, lo, hi):
             continue
         return False
     return bool(values)
+
+
+def fnptr_targets(prog, body, site):
+    """The functions an indirect call `site` (callee None, `func` a local fn pointer) can reach, when that is decidable from the shape of
+    the code: the pointer is a reified fn item (`f as fn(..)`) assigned locally, or the result of a workspace function all of whose
+    returns are reified fn items (`fn token_lexer(&self) -> fn(..) { if c { a } else { b } }`).  None when it is anything else."""
+    f = site.t.get("func")
+    if not f or f["k"] not in ("copy", "move"):
+        return None
+
+    def reified(b, l, depth=0):
+        out = set()
+        for d in b.defs.get(l, []):
+            if d[0] == "assign" and d[3]["k"] == "assign":
+                rv = d[3]["rv"]
+                if rv["k"] == "cast" and "ReifyFnPointer" in rv.get("cast", "") and rv["op"]["k"] == "const" and rv["op"].get("fn"):
+                    out.add(norm(rv["op"]["fn"]))
+                elif rv["k"] == "use" and rv["op"]["k"] in ("copy", "move") and not rv["op"]["place"]["p"] and depth < 4:
+                    r = reified(b, rv["op"]["place"]["l"], depth + 1)
+                    if r is None:
+                        return None
+                    out |= r
+                else:
+                    return None
+            elif d[0] == "call":
+                cal = prog.body(norm(d[2].get("resolved") or d[2].get("callee") or ""))
+                if cal is None or not cal.crate.startswith("pasfmt") or depth >= 4:
+                    return None
+                r = reified(cal, 0, depth + 1)
+                if r is None:
+                    return None
+                out |= r
+            else:
+                return None
+        return out or None
+    return reified(body, f["place"]["l"])
